@@ -1,7 +1,7 @@
 """C04 - Start requests only go to eligible instances with spare load (structural clauses)."""
 import ast
 from ..model import own_nodes, AnalysisError
-from ..paths import factmap, call_text, returns, must_call
+from ..paths import ctext, factmap, call_text, returns, must_call
 from ..defuse import defuse, closed_text, comp_view, sum_terms
 from . import shared
 
@@ -356,8 +356,8 @@ def run(P, R):
         R.check(r6, ok, '%s is searched by process name and identifier' % nm, 'dedup|%s' % nm, ac.loc(),
                 'add_commands looks up %s with %s' % (nm, ast.unparse(v) if v is not None else '?'))
     gc = P.unit('ApplicationJobs.get_command')
-    txt = ast.unparse(gc.node)
-    ok = '(not identifier or identifier == command.identifier) and command.process.process_name == process_name' in txt
+    want = ctext('(not identifier or identifier == command.identifier) and command.process.process_name == process_name')
+    ok = any(ctext(x) == want for x in ast.walk(gc.node) if isinstance(x, ast.BoolOp))
     R.check(r6, ok, 'get_command matches identifier (when given) and process name', 'dedup|get_command', gc.loc(),
             'get_command no longer matches on `(not identifier or identifier == command.identifier) and process name`')
     for q, fact in (('Starter.start_process', 'process.stopped()'), ('Starter.start_application', 'application.stopped()')):
